@@ -81,6 +81,7 @@ type vf18Obst struct {
 	sticky bool
 	file   bool // a stale REGULAR staging file (what a swap killed between write and rename leaves), with this mode
 	mode   int
+	link   bool // a stale SYMLINK at the staging name, pointing at node `mode` (artifact / outside file / nothing)
 }
 
 type vf18Sandbox struct {
@@ -570,6 +571,14 @@ func (sb *vf18Sandbox) installObstacles(l []vf18Obst) {
 		if os.MkdirAll(filepath.Dir(d), 0o755) != nil {
 			continue
 		}
+		if o.link {
+			if tp, ok := sb.pathOf(o.mode); ok {
+				_ = os.Symlink(tp, d)
+			} else {
+				_ = os.Symlink(filepath.Join(sb.root, "aux", "nowhere"+strconv.Itoa(o.mode)), d)
+			}
+			continue
+		}
 		if os.WriteFile(d, []byte("half-written bytes of a swap that was killed\n"), 0o600) == nil {
 			_ = os.Chmod(d, vf18GoMode(o.mode))
 		}
@@ -766,6 +775,11 @@ func vf18Obsts(s string) []vf18Obst {
 		if len(parts) > 1 && strings.HasPrefix(parts[1], "f") {
 			m, _ := strconv.ParseInt(parts[1][1:], 8, 32)
 			out = append(out, vf18Obst{p: p, file: true, mode: int(m)})
+			continue
+		}
+		if len(parts) > 1 && strings.HasPrefix(parts[1], "l") {
+			t, _ := strconv.Atoi(parts[1][1:])
+			out = append(out, vf18Obst{p: p, file: true, link: true, mode: t})
 			continue
 		}
 		out = append(out, vf18Obst{p: p, sticky: len(parts) > 1 && parts[1] == "s"})
